@@ -94,6 +94,11 @@ class Part:
     only_shard0: bool = False
 
 
+def _cpu_seconds() -> float:
+    t = os.times()
+    return t.user + t.system + t.children_user + t.children_system
+
+
 class Ctx:
     """Accounting for one shard of one run."""
 
@@ -141,7 +146,28 @@ class Ctx:
         self.excluded[bucket] += n
 
     def out_of_time(self) -> bool:
-        return time.monotonic() > self.deadline
+        """A part is out of time when its wall-clock budget AND the same amount of CPU time
+        (this process and its finished children) are used up, or at three times the wall
+        budget.  On a quiet machine the two clocks agree; on an overloaded one the wall
+        clock alone would cut a run before it has done any work."""
+        now = time.monotonic()
+        if now <= self._deadline:
+            return False
+        if now > self._hard_deadline:
+            return True
+        return _cpu_seconds() > self._cpu_deadline
+
+    @property
+    def deadline(self) -> float:
+        return self._deadline
+
+    @deadline.setter
+    def deadline(self, value: float) -> None:
+        now = time.monotonic()
+        self._deadline = value
+        budget = max(0.0, value - now) if value != float("inf") else float("inf")
+        self._cpu_deadline = _cpu_seconds() + budget
+        self._hard_deadline = now + 3 * budget if budget != float("inf") else float("inf")
 
     # -- failures ---------------------------------------------------------------
     def is_known(self, bucket: str) -> bool:
